@@ -659,6 +659,13 @@ func (c *FnCtx) instrMods(in ssa.Instruction, locals map[*ssa.Alloc]bool, heaps 
 				heaps[k] = true
 			}
 		}
+		if ps := c.paramSpecFor(common.Value); ps != nil {
+			for _, n := range ghostNamesOf(ps) {
+				k := "GH_" + n[1:]
+				c.g.heapSorts[k] = SBool
+				heaps[k] = true
+			}
+		}
 		// closures passed to unknown callees / go statements may write captured variables
 		for _, a := range common.Args {
 			c.closureMods(a, locals, heaps, map[*ssa.Function]bool{})
